@@ -945,6 +945,10 @@ func ruleFanoutSet(c *Ctx) {
 							return true
 						}
 					}
+				case *ssa.ChangeType:
+					return walk(x.X, d+1) // a named set type handed to a helper that takes the plain map (or the reverse)
+				case *ssa.Convert:
+					return walk(x.X, d+1)
 				}
 				return false
 			}
